@@ -15,16 +15,16 @@ open BM
 
 theorem startswith_lsb0_mirror (l t : Bits) (start stop : Option Int) :
     startswithOp .lsb0 l t start stop = startswithOp .msb0 l.reverse t.reverse start stop := by
-  sorry
+  exact startswith_mirror l t start stop
 
 theorem endswith_lsb0_mirror (l t : Bits) (start stop : Option Int) :
     endswithOp .lsb0 l t start stop = endswithOp .msb0 l.reverse t.reverse start stop := by
-  sorry
+  exact endswith_mirror l t start stop
 
 /-- The chunks of `cut` come in the same order; each is the reversed chunk of the reversed bits. -/
 theorem cut_lsb0_mirror (l : Bits) (bits : Int) (start stop : Option Int) (count : Option Int) :
     cutOp .lsb0 l bits start stop count = (cutOp .msb0 l.reverse bits start stop count).map (List.map List.reverse) := by
-  sorry
+  exact cut_mirror l bits start stop count
 
 /-! ### replace (uses findall: same chunk region as `findall_lsb0_mirror_partial`) -/
 
@@ -39,21 +39,21 @@ theorem replace_lsb0_mirror_partial (l old new : Bits) (start stop : Option Int)
 
 theorem insert_lsb0_mirror (l v : Bits) (pos : Int) :
     insertOp .lsb0 l v pos = (insertOp .msb0 l.reverse v.reverse pos).map List.reverse := by
-  sorry
+  exact insertOp_mirror l v pos
 
 theorem overwrite_lsb0_mirror (l v : Bits) (pos : Int) :
     overwriteOp .lsb0 l v pos = (overwriteOp .msb0 l.reverse v.reverse pos).map List.reverse := by
-  sorry
+  exact overwriteOp_mirror l v pos
 
 theorem append_lsb0_mirror (l v : Bits) : appendOp .lsb0 l v = (appendOp .msb0 l.reverse v.reverse).reverse := by
-  sorry
+  simp [appendOp, appendMsb0, appendLsb0]
 
 theorem prepend_lsb0_mirror (l v : Bits) : prependOp .lsb0 l v = (prependOp .msb0 l.reverse v.reverse).reverse := by
-  sorry
+  simp [prependOp, appendMsb0, appendLsb0]
 
 theorem reverse_lsb0_mirror (l : Bits) (start stop : Option Int) :
     reverseOp .lsb0 l start stop = (reverseOp .msb0 l.reverse start stop).map List.reverse := by
-  sorry
+  exact reverseOp_mirror l start stop
 
 /-! ### byteswap -/
 
@@ -73,7 +73,7 @@ theorem byteswap_lsb0_mirror (l : Bits) (fmt : Option (List Int)) (start stop : 
 theorem rol_ror_range_mirrored (l : Bits) (bits : Int) (start stop : Option Int) :
     rolOp .lsb0 l bits start stop = (rorOp .msb0 l.reverse bits start stop).map List.reverse ∧
     rorOp .lsb0 l bits start stop = (rolOp .msb0 l.reverse bits start stop).map List.reverse := by
-  sorry
+  exact rol_ror_mirror l bits start stop
 
 /-- whole-string rotation: the stored bits are rotated to the left by `rol` in both modes. -/
 theorem rol_whole_mode_independent (l : Bits) (bits : Nat) (h : l ≠ []) :
@@ -86,36 +86,36 @@ theorem shift_direction_kept (m : Mode) (l : Bits) (n : Int) (hn : 0 ≤ n) (hl 
     shlOp m l n = .ok (l.drop (min n.toNat l.length) ++ List.replicate (min n.toNat l.length) false) ∧
     shrOp m l n = .ok (List.replicate (min n.toNat l.length) false ++ l.take (l.length - min n.toNat l.length)) ∧
     ishlOp m l n = shlOp m l n ∧ ishrOp m l n = shrOp m l n := by
-  sorry
+  exact shift_closed m l n hn hl
 
 /-- … so, in mirror terms, lsb0 `<<` is the image of msb0 `>>`. -/
 theorem shift_lsb0_is_mirror_of_opposite (l : Bits) (n : Int) :
     shlOp .lsb0 l n = (shrOp .msb0 l.reverse n).map List.reverse ∧
     shrOp .lsb0 l n = (shlOp .msb0 l.reverse n).map List.reverse := by
-  sorry
+  exact shift_opposite l n
 
 /-! ### reading, unpacking, packing -/
 
 theorem read_lsb0_mirror (l : Bits) (pos : Nat) (tk : Tok) (k : Nat) :
     readOp .lsb0 l pos tk k = (readOp .msb0 l.reverse pos tk k).map fun r => (r.1.reverse, r.2) := by
-  sorry
+  exact readOp_mirror l pos tk k
 
 /-- `readlist` / `unpack`: the tokens are read in the same order, from the least significant end. -/
 theorem readlist_lsb0_mirror (l : Bits) (pos : Nat) (toks : List (Tok × Nat)) :
     readList .lsb0 l pos toks
       = (readList .msb0 l.reverse pos toks).map fun r => (r.1.map (fun x => (x.1, x.2.reverse)), r.2) := by
-  sorry
+  exact readList_mirror l toks pos
 
 /-- `pack`: the first token ends up at the least significant end. -/
 theorem pack_lsb0_mirror (toks : List Bits) :
     packOp .lsb0 toks = (packOp .msb0 (toks.map List.reverse)).reverse := by
-  sorry
+  exact pack_mirror toks
 
 /-! ### whole-value interpretations read the stored order in both modes -/
 
 theorem whole_value_mode_independent (m : Mode) (l : Bits) :
     wholeBits m l = .ok l ∧ uintOf m l = .ok (bitsToNat l) ∧ intOf m l = .ok (bitsToInt l) := by
-  sorry
+  exact whole_value m l
 
 /-! ### the method tables: switching the option restores every rebound attribute -/
 
@@ -131,13 +131,13 @@ theorem setLsb0_lookup (env : Attrs) (v : Bool) (c a : String) :
       match ((if v then lsb0Table else msb0Table).map fun b => ((b.1, b.2.1), (b.2.2.1, b.2.2.2))).lookup (c, a) with
       | some f => some f
       | none => lookupAttr env c a := by
-  sorry
+  exact setLsb0_lookup' env v c a
 
 /-- `toggle_restores`: whatever the option was set to before (any history), setting it to `v` gives the same
     bindings as setting it to `v` in the first place — in particular switching lsb0 off restores msb0 exactly. -/
 theorem toggle_restores (env : Attrs) (hist : List Bool) (v : Bool) (c a : String) :
     lookupAttr (setLsb0 (hist.foldl setLsb0 env) v) c a = lookupAttr (setLsb0 env v) c a := by
-  sorry
+  exact toggle_restores' env hist v c a
 
 /-! ### non-vacuity -/
 example : rolOp .lsb0 [true, false, false, false, false] 1 (some 0) (some 3) = .ok [true, false, false, false, false] := by decide
